@@ -222,6 +222,81 @@ impl Ctx<'_> {
 	}
 }
 
+impl Ctx<'_> {
+	/// family (e): ONE argument value `v`, EVERY way of reaching the formatter, all answers compared
+	/// with the same reference answer:
+	///   direct `std_format(fmt, v)`; from source `F % X`, `std.format(F, X)`, `std.mod(F, X)`,
+	///   `local f = F, v = X; f % v` (operands behind thunks), `(F) % (X)`, `(F1 + F2) % X` (the format
+	///   string cut in the middle: a rope when it is long);
+	///   and the same value wrapped `[X]`: `std_format(fmt, [v])`, `F % [X]`, `std.format(F, [X])`,
+	///   `std.mod(F, [X])`.
+	/// Mode of the op sent to the Lean side: an array value IS the argument list (`arr`, its
+	/// elements); an object selects object mode (`single`); any other value `x` means the same bare
+	/// and wrapped (`single` = `format_arr(fmt, [x])`), so all nine share one op shape.
+	fn reach(&mut self, tag: &str, fmt: &str, v: &V, precs: &[u16]) {
+		let f = serde_json::to_string(fmt).expect("json str");
+		let x = &v.src;
+		// the format string as a concatenation cut in the middle (a rope when it has >= 100 bytes)
+		let fc: Vec<char> = fmt.chars().collect();
+		let f1 = serde_json::to_string(&fc[..fc.len() / 2].iter().collect::<String>()).expect("json str");
+		let f2 = serde_json::to_string(&fc[fc.len() / 2..].iter().collect::<String>()).expect("json str");
+		let elems: Option<Vec<Val>> = match &v.val {
+			Val::Arr(a) => Some((0..a.len()).filter_map(|i| a.get(i).ok().flatten()).collect()),
+			_ => None,
+		};
+		let is_obj = matches!(v.val, Val::Obj(_));
+		let (bare_mode, bare_vals): (&str, Vec<Value>) = match &elems {
+			Some(es) => ("arr", es.iter().map(|e| describe(e, precs)).collect()),
+			None => ("single", vec![describe(&v.val, precs)]),
+		};
+		let (wrap_mode, wrap_vals): (&str, Vec<Value>) =
+			if is_obj || elems.is_some() { ("arr", vec![describe(&v.val, precs)]) } else { ("single", vec![describe(&v.val, precs)]) };
+		let size = fmt.chars().count() + 1;
+		let s = self.s;
+		let eval = |code: &str| -> Value {
+			answer(guarded(|| -> jrsonnet_evaluator::Result<String> {
+				let v = s.evaluate_snippet("<c12>".to_owned(), code.to_owned())?;
+				match v {
+					Val::Str(s) => Ok(s.into_flat().to_string()),
+					_ => Ok("<not a string>".to_owned()),
+				}
+			}))
+		};
+		let wrapped = Val::Arr(ArrValue::eager(vec![v.val.clone()]));
+		let runs: Vec<(&str, bool, Option<String>)> = vec![
+			("bare:direct", false, None),
+			("bare:percent", false, Some(format!("{f} % {x}"))),
+			("bare:std.format", false, Some(format!("std.format({f}, {x})"))),
+			("bare:std.mod", false, Some(format!("std.mod({f}, {x})"))),
+			("bare:percent-locals", false, Some(format!("local f = {f}, v = {x}; f % v"))),
+			("bare:percent-paren", false, Some(format!("({f}) % ({x})"))),
+			("bare:percent-concat", false, Some(format!("({f1} + {f2}) % {x}"))),
+			("wrapped:direct", true, None),
+			("wrapped:percent", true, Some(format!("{f} % [{x}]"))),
+			("wrapped:std.format", true, Some(format!("std.format({f}, [{x}])"))),
+			("wrapped:std.mod", true, Some(format!("std.mod({f}, [{x}])"))),
+		];
+		for (via, wrap, code) in runs {
+			let (mode, vals) = if wrap { (wrap_mode, &wrap_vals) } else { (bare_mode, &bare_vals) };
+			let mut op = json!({"op":"fmt","fmt":cps(fmt),"mode":mode,"vals":vals,"size":size,"_fmt":fmt,"_tag":tag,"via":via,"_arg":x});
+			let ans = match &code {
+				None => {
+					let arg = if wrap { wrapped.clone() } else { v.val.clone() };
+					answer(guarded(|| std_format(fmt, arg)))
+				}
+				Some(c) => {
+					op["_src"] = json!(c);
+					self.n_eval += 1;
+					eval(c)
+				}
+			};
+			self.w.case(op, ans);
+		}
+		self.bump(tag);
+		self.bump(&format!("reach:{}", v.kind));
+	}
+}
+
 const CONVS: &[char] = &['d', 'i', 'u', 'o', 'x', 'X', 'e', 'E', 'f', 'F', 'g', 'G', 'c', 's', '%'];
 const FLAGS: &[char] = &['#', '0', '-', ' ', '+'];
 
@@ -470,6 +545,63 @@ pub fn run(opts: &Opts) {
 		}
 	}
 
+	// ---- (e) every way of reaching the formatter, with ONE bare right operand of every type --------------
+	let bare_srcs: &[(&str, &'static str)] = &[
+		("0", "zero"), ("-0", "negzero"), ("0.0", "zero"), ("-0.0", "negzero"), ("(1 - 1)", "zero"), ("(0 * -1)", "negzero"),
+		("1", "int"), ("-1", "negint"), ("-3", "negint"), ("42", "int"), ("255", "int"), ("65", "int"),
+		("0.5", "frac"), ("-0.5", "negfrac"), ("1.5", "frac"), ("-1.5", "negfrac"), ("1e-7", "tiny"), ("-1e-7", "tiny"),
+		("123456.789", "frac"), ("1e21", "huge"), ("-1e21", "huge"), ("9007199254740993", "big"), ("1e300", "huge"),
+		("-1e300", "huge"),
+		("\"\"", "str"), ("\"a\"", "str"), ("\"0\"", "str"), ("\"héllo\"", "str-nonascii"), ("\"%d\"", "str"),
+		("true", "bool"), ("false", "bool"), ("null", "null"),
+		("[]", "array"), ("[0]", "array"), ("[0, 0]", "array"), ("[[0]]", "array"), ("[null]", "array"), ("[1, \"x\"]", "array"),
+		("{}", "object"), ("{a: 0}", "object"), ("{a: -0, b: \"s\"}", "object"),
+	];
+	let bare: Vec<V> = bare_srcs.iter().map(|(src, k)| mkval(&s, src, k)).collect();
+	let reach_fmts = [
+		"%d items", "%s", "%d", "%i|", "%u", "%5d|", "%-5d|", "%05d|", "%+d", "% d", "%x", "%#x", "%o", "%X", "%.3d", "%f", "%5.1f|",
+		"%.0f", "%+.2f", "%e", "%.2E", "%g", "%G", "%#g", "%c|", "%s and %s", "%d %d", "plain", "", "%%", "%d%%", "%(a)d",
+		"%(a)s|%(b)s", "%*d", "%.*f", "%5s|", "%-5s|", "%z", "%", "%d%",
+		// longer than the rope threshold of string concatenation (100 bytes)
+		"................................................................................................................%d|%%|",
+		"éééééééééééééééééééééééééééééééééééééééééééééééééééééééééééé %s é",
+	];
+	let p07: Vec<u16> = (0..8).collect();
+	let mut n_reach = 0usize;
+	for f in reach_fmts {
+		for v in &bare {
+			cx.reach("reach:table", f, v, &p07);
+			n_reach += 1;
+		}
+	}
+	// seeded: one random code (flags, width, precision, conversion) + optional literal text, applied to
+	// a bare value from the table or to a fresh random number (zero of either sign 1 in 4)
+	let n_reach_rand = if thorough { 6000 } else { 700 };
+	for _ in 0..n_reach_rand {
+		let flags: String = FLAGS.iter().filter(|_| rng.chance(1, 4)).collect();
+		let wd = *rng.pick(&["", "", "0", "1", "5", "12"]);
+		let pr = *rng.pick(&["", "", ".0", ".1", ".3", ".7"]);
+		let cv = *rng.pick(CONVS);
+		let (pre, post) = (*rng.pick(&["", "n=", "é "]), *rng.pick(&["", "|", " items", "%%"]));
+		let fmt = format!("{pre}%{flags}{wd}{pr}{cv}{post}");
+		let v = match rng.below(8) {
+			0 => bare[rng.below(6)].clone(),
+			1 | 2 => {
+				let src = match rng.below(5) {
+					0 => format!("{}", rng.range(-1000, 1000)),
+					1 => format!("{}.{}", rng.range(-50, 50), rng.below(1000)),
+					2 => format!("{}e{}", rng.range(1, 10), rng.range(-6, 18)),
+					3 => format!("-{}e{}", rng.range(1, 10), rng.range(-6, 18)),
+					_ => format!("({} - {})", rng.below(3), rng.below(3)),
+				};
+				mkval(&s, &src, "random-num")
+			}
+			_ => rng.pick(&bare).clone(),
+		};
+		cx.reach("reach:random", &fmt, &v, &p07);
+		n_reach += 1;
+	}
+
 	// seeded random format strings over a richer alphabet with 0..4 random values
 	let n_rand = if thorough { 60000 } else { 8000 };
 	let pool: Vec<V> = values.iter().chain(more.iter()).cloned().collect();
@@ -484,8 +616,8 @@ pub fn run(opts: &Opts) {
 
 	let meta = json!({
 		"engine":"c12","cases":cx.w.n,"cross_product":n_cross,"malformed_strings":n_mal,"via_evaluator":cx.n_eval,
-		"random":n_rand,"big_int":n_big,"hist":cx.hist,
-		"rule":"flags(2^5) x width{none,0,1,5,*} x precision{none,.0,.1,.3,.*} x 15 conversions x values (ints, fractions, negative, zero, 1e21, 1e-7, 2^53+1, strings ASCII/non-ASCII, array, object, null) through std_format (1 in 16 also through `%`, std.format and std.mod from source); every string of length <= 4 over `%(.*0-+ #dsxg)k5` parsed (length <= 3 also formatted in 3 argument modes); argument-count/star/object-mode/wide-field tables; integer conversions of 16 numbers beyond the i64 range x 6 conversions x 10 flag sets x 8 width/precision forms; float precisions 308/309/310/65535 (fixed and `*`); %c of negative / fractional / huge numbers; seeded random format strings; the parse of every enumerated string is compared field by field (Debug text of the elements)"
+		"random":n_rand,"big_int":n_big,"reach_value_x_format":n_reach,"reach_vias":11,"hist":cx.hist,
+		"rule":"flags(2^5) x width{none,0,1,5,*} x precision{none,.0,.1,.3,.*} x 15 conversions x values (ints, fractions, negative, zero, 1e21, 1e-7, 2^53+1, strings ASCII/non-ASCII, array, object, null) through std_format (1 in 16 also through `%`, std.format and std.mod from source); every string of length <= 4 over `%(.*0-+ #dsxg)k5` parsed (length <= 3 also formatted in 3 argument modes); argument-count/star/object-mode/wide-field tables; integer conversions of 16 numbers beyond the i64 range x 6 conversions x 10 flag sets x 8 width/precision forms; float precisions 308/309/310/65535 (fixed and `*`); %c of negative / fractional / huge numbers; seeded random format strings; the parse of every enumerated string is compared field by field (Debug text of the elements); REACH: 41 bare right operands of every type (0, -0, 0.0, -0.0, (1-1), (0*-1), ints, negative, fractional, huge, strings, booleans, null, arrays, objects) x 42 format strings (two longer than 100 bytes) + seeded random code x value, each through eleven entry points that must agree: std_format(f, x), `f % x`, std.format(f, x), std.mod(f, x), `local f.., v..; f % v`, `(f) % (x)`, `(f1 + f2) % x` and the first four with x wrapped as [x]"
 	});
 	cx.w.finish(meta, &opts.out);
 }
